@@ -1,6 +1,6 @@
 (* C19 — The manager registers exactly the matching files under unique names. Theorems only. *)
 From Coq Require Import Sorting.Sorted Permutation.
-From Tpl Require Import Sys.FsWalk Proofs.FsProps.
+From Tpl Require Import Sys.FsWalk Proofs.FsProps Html.Manager Proofs.DefsRegistered Proofs.DefsFile.
 Open Scope N_scope.
 
 Section C19.
@@ -63,6 +63,33 @@ Theorem sub_fs_spec : forall sub l g,
             g = mkFF rest (ff_content f) (ff_fault f) (ff_match f).
 Proof. exact FsProps.sub_fs_spec. Qed.
 
+(* "... plus every fragment they define, in one namespace. A second registration of a name fails with the duplicate-name
+   error": a definition whose name is the file's own name, is already registered, or repeats an earlier definition of
+   the same file makes the load fail - with the duplicate-name error when everything visited before it evaluates *)
+Theorem file_and_fragments_registered : forall is_space to_lower is_letter is_udigit methods call_fn text_tags void_elements tag_prefix attr_prefix global tps name src tps',
+  add_file is_space to_lower is_letter is_udigit methods call_fn text_tags void_elements tag_prefix attr_prefix global tps name src = (tps', None) ->
+  exists root, load is_space to_lower text_tags void_elements attr_prefix (pok is_letter is_udigit) src = inl root /\
+    assoc name tps = None /\
+    tps' = tps ++ (name, file_tp root) :: defs_of is_space is_letter is_udigit methods call_fn tag_prefix attr_prefix global (PureRenderTree.nodes root) /\
+    assoc name tps' = Some (file_tp root) /\
+    (forall d nm, desc root d -> def_name_of is_letter is_udigit methods call_fn tag_prefix attr_prefix global d = Some nm ->
+       assoc nm tps' = Some (mkT (trim_blank_ends is_space (n_children d)) (n_children d))) /\
+    NoDup (name :: keys (defs_of is_space is_letter is_udigit methods call_fn tag_prefix attr_prefix global (PureRenderTree.nodes root))) /\
+    (forall k, In k (keys (defs_of is_space is_letter is_udigit methods call_fn tag_prefix attr_prefix global (PureRenderTree.nodes root))) -> assoc k tps = None) /\
+    (forall d, desc root d -> def_kind is_letter is_udigit methods call_fn tag_prefix attr_prefix global d <> DErr).
+Proof. exact DefsFile.add_file_registers_all. Qed.
+Theorem definition_name_clash_rejected : forall is_space to_lower is_letter is_udigit methods call_fn text_tags void_elements tag_prefix attr_prefix global tps name src root pre d post nm,
+  assoc name tps = None ->
+  load is_space to_lower text_tags void_elements attr_prefix (pok is_letter is_udigit) src = inl root ->
+  PureRenderTree.nodes root = pre ++ d :: post ->
+  def_name_of is_letter is_udigit methods call_fn tag_prefix attr_prefix global d = Some nm ->
+  nm = name \/ assoc nm tps <> None \/ (exists d1, In d1 pre /\ def_name_of is_letter is_udigit methods call_fn tag_prefix attr_prefix global d1 = Some nm) ->
+  snd (add_file is_space to_lower is_letter is_udigit methods call_fn text_tags void_elements tag_prefix attr_prefix global tps name src) <> None /\
+  ((forall p, In p pre -> def_kind is_letter is_udigit methods call_fn tag_prefix attr_prefix global p <> DErr) ->
+   snd (add_file is_space to_lower is_letter is_udigit methods call_fn text_tags void_elements tag_prefix attr_prefix global tps name src) = Some LDup).
+Proof. exact DefsFile.add_file_definition_duplicate. Qed.
+Print Assumptions file_and_fragments_registered.
+Print Assumptions definition_name_clash_rejected.
 Print Assumptions every_open_closed.
 Print Assumptions unmatched_never_opened.
 Print Assumptions matching_files_registered.
